@@ -152,9 +152,11 @@ fn dead_after_abort(gz: bool) {
         BodyWriter::raw(cw)
     };
     let data = [1u8, 2, 3];
-    let r0 = w.write(&data[..1]);
-    assert!(r0.is_ok(), "C08: write to a live body failed");
-    std::mem::forget(r0);
+    if !gz {
+        let r0 = w.write(&data[..1]);
+        assert!(r0.is_ok(), "C08: write to a live body failed");
+        std::mem::forget(r0);
+    }
     w.abort(E);
     assert!(matches!(w.0, Inner::Dead), "C11: writer not dead after abort");
     // a write that does NOT complete a chunk: only the writer's own Dead state can refuse it
